@@ -204,10 +204,18 @@ class C10Monitor(Monitor):
         # a limit below the number of demes already active on ANY level is not a reachable configuration
         act = max([act] + [sum(1 for d in lv if d.is_active) for lv in tree.levels[1:]])
         act_t = sum(1 for d in tree.levels[plevel + 1] if d.is_active)
-        for n, base in [(n, 0.0) for n in range(1, self.NMAX + 1)] + [(n, 1e12) for n in (2, 3)]:
-            # base 1e12: fitness values that agree to 12 significant digits (distinct, but 'close')
+        nan = float("nan")
+        btr0 = btr
+        btr = lambda a, b: (not a != a) and (b != b or btr0(a, b))  # NaN (undefined objective) is worse than any number
+        for n, base in [(n, 0.0) for n in range(1, self.NMAX + 1)] + [(n, 1e12) for n in (2, 3)] + [(n, "nan") for n in (2, 3)]:
+            # base 1e12: fitness values that agree to 12 significant digits (distinct, but 'close'); base "nan": one candidate is NaN
             for wo in weak_orderings(n):
-                fits = [sgn * (base + v) for v in wo]
+                if base == "nan":
+                    if wo.count(0) != 1:
+                        continue
+                    fits = [nan if v == 0 else sgn * v for v in wo]
+                else:
+                    fits = [sgn * (base + v) for v in wo]
                 for sp in splits(n, len(parents)):
                     for L in (1, 2, 3):
                         if act > L:
@@ -260,7 +268,8 @@ class C10Monitor(Monitor):
                                 if len(kept) > 2:
                                     x.violate("C10/composed-demelimit", f"composed mechanism kept {len(kept)} candidates of one deme under DemeLimit(2)")
                             if tot > max(0, L - act_t):
-                                x.violate("C10/composed-levellimit", f"composed mechanism (order {order}) kept {tot} candidates with {L - act_t} free slots")
+                                x.violate("C10/composed-levellimit" + (":nan-candidate" if any(f != f for f in fits) else ""),
+                                          f"composed mechanism (order {order}) kept {tot} candidates with {L - act_t} free slots (fitness {fits})")
                             if any(not c.individuals for c in seeds.values()):
                                 x.violate("C10/empty-entry-returned", "get_seeds returned an empty candidate list")
 
@@ -279,11 +288,12 @@ class C10Monitor(Monitor):
         dropped = [i for i in inds if not any(i is k for k in kept)]
         free = max(free, 0)
         ctx = f"{what}: fitness {fits} split {sp} maximize={mx} kept {[k.fitness for k in kept]}"
+        nan_sfx = ":nan-candidate" if any(f != f for f in fits) else ""
         if len(inds) > free:
             x.flag("filter had to choose")
         if len(kept) > free:
-            x.violate("C10/levellimit-more-than-free", f"kept {len(kept)} candidates with {free} free slots; {ctx}")
-        if len(set(fits)) == len(fits) and len(kept) != min(free, len(inds)):
+            x.violate("C10/levellimit-more-than-free" + nan_sfx, f"kept {len(kept)} candidates with {free} free slots; {ctx}")
+        if len(set(fits)) == len(fits) and not any(f != f for f in fits) and len(kept) != min(free, len(inds)):
             x.violate("C10/levellimit-not-exactly-filled", f"fitness values are distinct but {len(kept)} kept for {free} free slots; {ctx}")
         if len(inds) <= free and dropped:
             x.violate("C10/levellimit-dropped-though-fits", f"everything fits but {len(dropped)} candidates were removed; {ctx}")
@@ -360,6 +370,10 @@ class C10MonitorT(C10Monitor):
     NMAX = 5
 
 
+class C10MonitorS(C10Monitor):
+    NMAX = 3
+
+
 def _nontrivial(x):
     return "filter had to choose" in x.flags
 
@@ -389,13 +403,17 @@ def units(tier, seed):
     from ..runlib import mechanism_descs
 
     md = [dict(d, choices="", print_at_boundaries=True, Mh=6) for d in mechanism_descs(tier, seed)]
-    us += [{"kind": "run", "descs": c, "tier": tier} for c in chunks(md, 6)]
+    us += [{"kind": "run", "descs": c, "tier": tier, "small": True} for c in chunks(md, 6)]
+    from ..runlib import reuse_sequences
+
+    for seq in reuse_sequences(tier, seed):
+        us.append({"kind": "run", "descs": seq, "tier": tier, "small": True})
     return us
 
 
 def run_unit(unit):
     C10Monitor.seen = set()
-    mon = C10Monitor if unit.get("tier", "quick") == "quick" else C10MonitorT
+    mon = C10MonitorS if unit.get("small") else (C10Monitor if unit.get("tier", "quick") == "quick" else C10MonitorT)
     if unit["kind"] == "run":
         return run_descs(Result(), ID, unit, unit["descs"], [mon], _nontrivial)
     return run_split_unit(ID, unit, [mon], _nontrivial)
